@@ -477,9 +477,10 @@ where
         // 4. Inject dependencies to role state
         let last_applied_index = Some(state_machine.last_applied().index);
         let my_role = if node_config_arc.is_learner() {
-            RaftRole::Learner(Box::new(LearnerState::new(
+            RaftRole::Learner(Box::new(LearnerState::new_with_hard_state(
                 node_id,
                 node_config_arc.clone(),
+                raft_log.load_hard_state().expect("Failed to load hard state"),
             )))
         } else {
             RaftRole::Follower(Box::new(FollowerState::new(
